@@ -174,6 +174,22 @@ def check_single_only(case):
     return {"nontrivial": True, "labels": [case["sys"], "single_only"], "residual": 0.0}
 
 
+def check_axis_pairs(case):
+    """Exhaustive: every 2-grain set of axis-aligned orientations (24 x 24), expressed in the
+    generated frame Q: misorientations are exactly 0, 90, 120 or 180 degrees, i.e. on bin edges
+    and on the upper end of the angle range; the index must be finite and in [0, 1]."""
+    system = _sys(case)
+    Q = gen.rot(case["Q"])
+    n = 0
+    for i, A1 in enumerate(gen.AXIS24):
+        for A2 in gen.AXIS24[i:]:
+            A = np.stack([A1 @ Q.T, A2 @ Q.T])
+            m = _m(A, system)
+            require(np.isfinite(m) and -1e-3 <= m <= 1 + 1e-3, f"M-index {m!r} outside [0,1] for a 2-grain set of axis-aligned orientations ({case['sys']})")
+            n += 1
+    return {"nontrivial": True, "labels": [case["sys"], f"pairs{n}"], "residual": 0.0}
+
+
 def check_density(case):
     """Theoretical random-misorientation density integrates to 1 over [0, theta_max]."""
     system = _sys(case)
@@ -272,6 +288,14 @@ ORACLES = [
         classify=by_sys,
         quick=40,
         thorough=60,
+    ),
+    Oracle(
+        "axis_aligned_pairs_exhaustive",
+        st.fixed_dictionaries({"sys": st.sampled_from(["triclinic", "monoclinic"]), "Q": st.sampled_from([{"k": "ax", "i": 0}, {"k": "ax", "i": 5}, {"k": "e90", "a": [1, 2, 3]}])}),
+        check_axis_pairs,
+        classify=by_sys,
+        quick=4,
+        thorough=2,
     ),
     Oracle("batched_equals_single", batched_case(), check_batched, classify=by_sys, quick=16, thorough=10),
 ]
